@@ -868,7 +868,7 @@ func witnessFont(name string) (*cff.Font, error) {
 	case "width-fractional-default":
 		widths = []float64{500.5, 500.5, 500.5, 300.25, 700.75, 1000, 250}
 	case "width-fractional-nominal":
-		widths = []float64{1000, 1000, 1000, 20.5, 1500, 900.25}
+		widths = []float64{1000, 1000, 1000, 950.5, 990, 980}
 	case "width-all-equal":
 		widths = []float64{512.75, 512.75, 512.75}
 	default:
@@ -1104,7 +1104,7 @@ func genFonts(run *vlib.Run, r *vlib.Rand, tier string) {
 		emit(run, "!"+vlib.Line(vlib.Atom("width-font"), vlib.U64(seed), vlib.Atom(style)), true, "width-font")
 	}
 	styles := []string{"simple-s", "simple-s", "simple-m", "simple-m", "simple-l", "cid-s", "cid-s", "cid-m", "cid-m", "cid-l"}
-	n := vlib.Count(tier, 120, 2500)
+	n := vlib.Count(tier, 300, 2500)
 	for i := 0; i < n; i++ {
 		one(r.Uint64()>>1, styles[i%len(styles)])
 	}
